@@ -570,9 +570,9 @@ def nt_c05(lhs, impl):
 
 PROPS["C05"] = {
     "modules": ["WhatIs.Props.C05"],
-    "theorems": ["WhatIs.C05.trial_selects", "WhatIs.C05.label_matches", "WhatIs.C05.pem_eq_der", "WhatIs.C05.pem_text_eq_der", "WhatIs.C05.b64_eq_der",
+    "theorems": ["WhatIs.C05.trial_selects", "WhatIs.C05.label_matches", "WhatIs.C05.pem_eq_der", "WhatIs.C05.pem_eq_der_unparsed", "WhatIs.C05.pem_text_eq_der", "WhatIs.C05.b64_eq_der",
                  "WhatIs.C05.polyglot_lengths", "WhatIs.C05.polyglot_witness"],
-    "facts": {},
+    "facts": {"pem.unparsedFallsBack": True, "pem.mixedEndAfterBegin": True},
     "nontrivial": nt_c05,
     "gen_timeout": 3000,
     "rule": "every ASN.1 object of the fixtures (DER files and PEM bodies), freshly generated certificates / SPKI / PKCS#8 for five key "
